@@ -10,6 +10,7 @@ pub mod universe;
 pub mod acceptor;
 pub mod mutate;
 pub mod pcompare;
+pub mod disasm_ref;
 pub mod xs;
 pub mod checks;
 pub mod replay;
